@@ -141,6 +141,26 @@ def cases(draw, prof):
         member = {"k": draw(st.sampled_from(["list", "tuple"])), "items": [{"k": "ref", "name": a["name"]}, {"k": "opt", "key": draw(st.sampled_from(U.FLAT + ["S.X"]))}]}
         extra = {"k": "coalesce", "members": [member, {"k": "val", "v": "fallback"}]}
         spec = dict(spec, root={"k": "tuple", "items": [extra, spec["root"]]})
+    hashable_defs = [d for d in spec["defs"] if d["body"] == "first"]     # (their values can select a branch)
+    if hashable_defs and draw(st.integers(0, 2)) == 0:
+        # a coalesce that succeeds at an early member and has a LATER member whose path is chosen by a dataset, reached by the
+        # validation pass of an enclosing coalesce (nested directly, as a dataset argument, or as an Option's default)
+        a = draw(st.sampled_from(hashable_defs))
+        ds_ref = {"k": "ref", "name": a["name"]}
+        later = draw(st.sampled_from([
+            {"k": "switch", "disp": ds_ref, "lookup": [[1, {"k": "val", "v": "one"}]], "default": {"k": "val", "v": "other"}},
+            {"k": "case", "disp": ds_ref, "cases": [[{"p": "is_none"}, {"k": "val", "v": "none"}]], "default": {"k": "val", "v": "some"}},
+            {"k": "bind", "src": ds_ref, "table": [[1, {"k": "val", "v": "one"}]], "else": {"k": "val", "v": "other"}}]))
+        early = draw(st.sampled_from([{"k": "val", "v": "early"}, {"k": "opt", "key": "A", "default": {"t": "const", "v": "early"}}, {"k": "opt", "key": "B"}]))
+        inner = {"k": "coalesce", "members": [early, later]}
+        how = draw(st.sampled_from(["nested", "argument", "default"]))
+        if how == "nested":
+            outer = {"k": "coalesce", "members": [inner, {"k": "val", "v": "fallback"}]}
+        elif how == "argument":
+            outer = {"k": "coalesce", "members": [{"k": "tuple", "items": [inner, {"k": "opt", "key": "C", "default": {"t": "const", "v": 0}}]}, {"k": "val", "v": "fallback"}]}
+        else:
+            outer = {"k": "coalesce", "members": [{"k": "opt", "key": "E", "default": {"t": "node", "n": inner}}, {"k": "val", "v": "fallback"}]}
+        spec = dict(spec, root={"k": "tuple", "items": [outer, spec["root"]]})
     opts = [draw(U.option_dicts(p_present=draw(st.sampled_from([0.5, 0.8, 0.95])))) for _ in range(2)]
     return {"spec": spec, "options": opts}
 
